@@ -18,8 +18,12 @@
 #include "verif.h"
 #if defined(REAL_LH5)
 #include "lib/lh5_decoder.c"
+#elif defined(REAL_LH6)
+#include "lib/lh6_decoder.c"
 #elif defined(REAL_LH7)
 #include "lib/lh7_decoder.c"
+#elif defined(REAL_LHX)
+#include "lib/lhx_decoder.c"
 #elif defined(REAL_LK7)
 #include "lib/lk7_decoder.c"
 #else
@@ -61,6 +65,7 @@ static const u8 lk_dist_extra[32] = { 0, 0, 0, 0, 1, 1, 2, 2, 3, 3, 4, 4, 5, 5, 
 #endif
 
 static LHANewDecoder dec;
+static unsigned verif_max_read(void) { return OUTPUT_BUFFER_SIZE; }
 static int g_code, g_sym;
 static unsigned code_walks, off_walks;
 
@@ -239,5 +244,50 @@ void harness(void)
 		if (len == LENMAX && d + 2 < len) WITNESS("longest copy, self-overlapping");
 		if (d == RING - 1) WITNESS("largest distance of the window");
 	}
+	WITNESS("end");
+}
+
+/* Distance and LHARK length decoding alone, at the parameters of the included instantiation: the real
+ * read_offset_code (and lhark_decode_copy_count) return exactly the reference value for every symbol the window
+ * permits and consume exactly the extra bits, from any bit alignment. */
+void harness_codes(void)
+{
+	INPUT(u32, sym); INPUT(u32, code); INPUT(u32, start);
+	INPUT_ARRAY(u8, stream, BS_N);
+	unsigned i, d, p;
+	int r;
+	ASSUME(sym <= MAXSYM && start <= 7);
+	for (i = 0; i < BS_N; ++i) bs_data[i] = stream[i];
+	bs_bits = 8 * BS_N; bs_pos = start; p = start;
+	g_sym = (int) sym;
+#ifdef LHARK
+	{ unsigned e = lk_dist_extra[sym]; d = lk_dist_base[sym] + bs_ref(p, e); p += e; }
+#else
+	if (sym == 0) d = 0;
+	else { d = (1u << (sym - 1)) | bs_ref(p, sym - 1); p += sym - 1; }
+#endif
+	r = read_offset_code(&dec);
+	CHECK(off_walks == 1 && code_walks == 0, "C01 H01.cmd: a distance is one offset-tree symbol");
+	CHECK(r >= 0 && (unsigned) r == d, "C01 H01.cmd: distance = reference decoding of (offset symbol, extra bits)");
+	CHECK(bs_pos == p, "C01 H01.cmd: distance consumes exactly its extra bits");
+	CHECK(d < RING, "C01 H01.cmd: every distance of a permitted symbol lies inside the ring");
+	if (sym == MAXSYM && d == RING - 1) WITNESS("largest distance");
+#ifdef LHARK
+	{
+		unsigned len, q = p;
+		ASSUME(code >= 256 && code < NUM_CODES);
+		if (code < 264) len = code - 253;
+		else if (code < 288) { unsigned e = lk_len_extra[code - 264]; len = lk_len_base[code - 264] + bs_ref(q, e); q += e; }
+		else len = 514;
+		r = lhark_decode_copy_count(&dec, (int) code);
+		CHECK(r >= 0 && (unsigned) r == len, "C01 H01.cmd: LHARK copy length = reference decoding of (code, extra bits)");
+		CHECK(bs_pos == q, "C01 H01.cmd: LHARK copy length consumes exactly its extra bits");
+		CHECK(len >= 3 && len <= 514 && len <= verif_max_read(), "C01 H01.cmd: LHARK lengths 3..514 fit the output buffer");
+		if (code == 287 && len == 514) WITNESS("LHARK: 514 through the last extra-bit class");
+		if (code == 288) WITNESS("LHARK: code 288");
+	}
+#else
+	(void) code;
+#endif
 	WITNESS("end");
 }
